@@ -41,6 +41,13 @@ def hand_scenarios():
     out.append(("html", "R/a.txt", {"R/a.txt": F([T("A "), M("@ABS@/R/deep/x.txt"), T("\n")]), "R/deep/x.txt": F([T("X "), M("y.txt")]), "R/y.txt": F([T("Ytop")]), "R/deep/y.txt": F([T("Ydeep")])}))
     for n in (996, 997, 998, 999, 1000, 1001, 1098, 1099, 1100, 1101, 1500):
         out.append(("html", "R/a.txt", {"R/a.txt": F([T("L "), M("n" * n), T(" after "), M("b.txt"), T("\n")]), "R/b.txt": F([T("B")])}))
+    # size boundaries of included files: empty, one byte, exactly a newline; nested and shared
+    out.append(("html", "R/a.txt", {"R/a.txt": F([T("A"), M("empty.txt"), T("B "), M("one.txt"), T(" "), M("nl.txt"), T("C "), M("mid.txt"), T("\n")]), "R/empty.txt": F([]), "R/one.txt": F([T("x")]),
+                                    "R/nl.txt": F([T("\n")]), "R/mid.txt": F([M("empty.txt"), M("empty.txt"), T("m"), M("one.txt")])}))
+    out.append(("latex", "R/a.txt", {"R/a.txt": F([M("e.*"), T("|"), M("e.*"), T("\n")]), "R/e.tex": F([])}))
+    # included files with a large metadata block (its size must not matter): the base override comes after a long value
+    for pad in (200, 3000, 4090, 5000, 9000):
+        out.append(("html", "R/a.txt", {"R/a.txt": F([T("A "), M("big.txt"), T(" end\n")]), "R/big.txt": dict(F([T("B "), M("leaf.txt"), T("\n")], True, "sub"), pad=pad), "R/sub/leaf.txt": F([T("LEAFSUB")]), "R/leaf.txt": F([T("LEAFTOP")])}))
     out.append(("html", "R/a.txt", {"R/a.txt": F([T("toc "), M("TOC"), T(" "), M("b.txt"), T("\n")]), "R/b.txt": F([T("B "), M("TOC")])}))
     out.append(("html", "R/a.txt", {"R/a.txt": F([T("A "), M("b.txt"), M("b.txt"), T(" "), M("c.txt")]), "R/b.txt": F([M("c.txt"), T("B")], True), "R/c.txt": F([T("C"), M("a.txt")], True)}))
     return out
@@ -49,7 +56,7 @@ def hand_scenarios():
 def files_of(fs):
     out = {}
     for p, f in fs.items():
-        meta = ("Title: t\n" + ("Transclude Base: %s\n" % f["base"] if f["base"] else "") + "\n") if f["meta"] else ""
+        meta = ("Title: t\n" + ("Abstract: %s\n" % ("x" * f["pad"]) if "pad" in f else "") + ("Transclude Base: %s\n" % f["base"] if f["base"] else "") + "\n") if f["meta"] else ""
         out[p] = meta + "".join(("{{%s}}" % a["s"]) if a["k"] == "m" else a["s"] for a in f["atoms"])
     return out
 
@@ -109,7 +116,7 @@ def run(tier, seed):
         def fixfs(fs, d):
             # the abstract file system as the spec sees it: symbolic root, absolute markers spelled with the real directory
             def ms(s): return (d + s) if s.startswith("/R/") else s.replace("@ABS@", d)
-            return {p.lstrip("/"): dict(atoms=[dict(k=a["k"], s=ms(a["s"]) if a["k"] == "m" else a["s"]) for a in f["atoms"]], meta=f["meta"], base=f["base"]) for p, f in fs.items()}
+            return {p.lstrip("/"): dict(atoms=[dict(k=a["k"], s=ms(a["s"]) if a["k"] == "m" else a["s"]) for a in f["atoms"]], meta=f["meta"], base=f["base"], **({"pad": f["pad"]} if "pad" in f else {})) for p, f in fs.items()}
         for (i, fmt, root, fs, d), seg, r in zip(cases, segs, res):
             trace.append(dict(e="reset"))
             fs_abs = {(os.path.join(d, p)): v for p, v in fixfs(fs, d).items()}
